@@ -49,3 +49,8 @@ claim("C17",
       "Bounded symbolic exploration of the real forward.Handler (ServeDNS, exchange, pickActiveUpstream, Refresh/refresh/healthcheck/healthcheckUpstream/checkUpstream) with stub upstreams whose every exchange outcome (NOERROR, SERVFAIL, net.Error, io.EOF, other error, nil) is an explored choice, symbolic backoff and clock; after every step the active set, the last-failed-probe times and the sequence of exchange calls must equal a reference state machine (backoff boundary decided by the solver), the response written must be the answering upstream's, and failures must surface as errors. validatePlainResponse is decided separately for symbolic IDs/types/names.",
       "Trusted: symgo (time.Now as harness clock, x/exp/rand.Intn as explored choice), z3. Bounds: 2 main upstreams, 0..1 fallback, 3 (quick) / 4 (thorough) steps; names of <=4 bytes. Outside the claim: sockets, connection pools, timeouts, UDP->TCP retry on truncation (exchangeUDP, not encoded), metrics.",
       "DESIGN.md 3 C17")
+
+claim("C15",
+      "Symbolic execution of the real mainmw Wrap closure (filterRequest/filterResponse/setFilteredResponse/recordQueryInfo) with recorder stubs over device-result kinds, symbolic QueryLogEnabled/IPLogEnabled flags, all request/response verdict kinds and symbolic client address / ASN / start time / qtype: billing iff attributed to a profile, log entry iff query logging enabled, client address iff IP logging enabled, entry fields are this request's; querylog.resultData against the table of doc/querylog.md for all verdict pairs; FileSystem.Write over 1..3 writes with a recycled buffer (one complete record per entry, file closed, elapsed saturation).",
+      "Trusted: symgo (sync.Pool LIFO model), recorder stubs; in the symbolic build os.OpenFile, File.Write/Close and json.Encoder.Encode are stubs (native replay uses a real temp file and JSON). Outside the claim: atomicity of concurrent O_APPEND writes (kernel), JSON encoding, that anonymous/dropped requests never reach this middleware (C10/H10b).",
+      "DESIGN.md 3 C15")
